@@ -81,6 +81,15 @@ def run(res, tier, replay):
                 b[pos] ^= 1 << rng.randrange(8)
             dops = ["x%d" % rng.randrange(len(names) + 1) for _ in range(3)] + ["F" + rng.choice(names).hex()]
             cases.append((bytes(b), rng.random() < 0.7, dops))
+        if i % 5 == 1:
+            # directory entries whose offset / length need more than 32 bits (declared only: the listing and fast_find must carry them exactly)
+            try:
+                big, bexp = chmfmt.build([(b"/a.txt", b"hello"), (b"/b.bin", bytes(40))], (), rng, chunk_size=rng.choice([256, 4096]), density=2,
+                                         extra_entries=[(b"/huge0.bin", 0, 0x100000123, 0x1000), (b"/huge1.bin", 0, 45, 0x100000123), (b"/huge2.bin", 0, 0xFFFFFFFF, 0x7FFFFFFFFF), (b"/huge3.bin", 0, 0x100000000, 1)])
+                bn = sorted(bexp.keys(), key=chmfmt.sort_key)
+                cases.append((big, True, ["F" + x.hex() for x in bn] + ["x%d" % bn.index(b"/a.txt")]))
+                cases.append((big, False, ["F" + x.hex() for x in bn]))
+            except ValueError: pass
         if i % 5 == 0:
             # 64-bit header fields with the top bit set (file length, directory offset): off_t is signed
             import struct as _st
